@@ -767,3 +767,65 @@ def rule_iter_stable(db, chk, cfg, e2eng_factory, rule="ITER.stable"):
                                   "that container (reallocation invalidates the loop's iterators: use-after-free); index the container afresh in every "
                                   "iteration instead" % (where(lp), member, canon(mods[0])[:60]), where(mods[0]), cfg=cfg)
     return n
+
+
+# ---------------------------------------------------------------------------
+# OPEN.flag: the builders are told the truth about open / closed (C05, C03)
+# ---------------------------------------------------------------------------
+
+class _OpenBranch(Client):
+    """state: 'open' / 'closed' / '?' - what is known about outrec->is_open on this path."""
+
+    def __init__(self, db):
+        self.db = db
+        self.sites = []
+
+    def join(self, a, b):
+        return a if a == b else "?"
+
+    def stmt(self, node, st):
+        for x in walk(node):
+            if x.get("kind") in ("CallExpr", "CXXMemberCallExpr") and self.db.callee(x)[0] in BUILDERS:
+                a = self.db.call_args(x)
+                if len(a) >= 3:
+                    self.sites.append((x, st, canon(a[2])))
+        return st
+
+    def cond_atom(self, e, st):
+        e0 = _u(e)
+        c0 = canon(e0)
+        if c0.endswith("->is_open") or c0.endswith(".is_open"):
+            return "open", "closed"
+        for x in walk(e):
+            if x.get("kind") in ("CallExpr", "CXXMemberCallExpr") and self.db.callee(x)[0] in BUILDERS:
+                a = self.db.call_args(x)
+                if len(a) >= 3:
+                    self.sites.append((x, st, canon(a[2])))
+        return st, st
+
+
+def rule_open_flag(db, chk, cfg, rule="OPEN.flag"):
+    """In the four output builders (BuildPaths64/D, BuildTree64/D) every BuildPath64 / BuildPathD call made where `outrec->is_open` is known
+    to hold passes isOpen = true, and every call made where it is known not to hold passes false: an open piece built as closed loses
+    its two-point pieces and is closed up; a closed ring built as open skips the degenerate-ring guard."""
+    n = 0
+    for q in ("Clipper64::BuildPaths64", "Clipper64::BuildTree64", "ClipperD::BuildPathsD", "ClipperD::BuildTreeD"):
+        f = db.one(q)
+        cl = _OpenBranch(db)
+        Walker(cl).function(f.body, "?")
+        seen = set()
+        for x, st, arg in cl.sites:
+            key = (x.get("line"), x.get("col"), st)
+            if key in seen or st == "?":
+                continue
+            seen.add(key)
+            want = "true" if st == "open" else "false"
+            n += 1
+            ok = arg == want
+            chk.instance(rule, {"function": f.qual, "call": canon(x)[:70], "branch": st, "isOpen_argument": arg, "cfg": cfg}, ok=ok)
+            if not ok:
+                chk.violation(rule, f.qual, "%s|%s" % (st, arg), "in the %s-path branch of %s the builder is called with isOpen = %s: `%s`" % (st, f.qual, arg, canon(x)[:80]),
+                              where(x), cfg=cfg)
+    if n < 4:
+        raise AnalysisBroken("OPEN.flag: only %d builder calls found under a test of outrec->is_open" % n)
+    return n
